@@ -113,6 +113,15 @@ COMPB(inner, view::invert(view::subtract(a, b)), (fn::invert * fn::subtract)(a, 
 COMPB(inner_curry, view::invert(view::subtract(a, b)), (fn::invert * fn::subtract)(a)(b))
 COMPB(outer, view::subtract(view::invert(a), b), (fn::subtract * fn::invert)(a, b))
 COMPB(extract, view::subtract(view::invert(a), b), fn::get_function_composition(nm::unwrap(mv))(a, b))
+// extraction + re-application (fn::apply on the extracted operands) for binary views whose FIRST operand is a sub-view: a ufunc view, a non-ufunc view (flip)
+COMPB(extract_apply, view::subtract(view::invert(a), b), fn::apply(fn::get_function_composition(nm::unwrap(mv)), fn::get_function_operands(nm::unwrap(mv))))
+COMPB(extract_apply_flip, view::subtract(view::flip(a, 1), b), fn::apply(fn::get_function_composition(nm::unwrap(mv)), fn::get_function_operands(nm::unwrap(mv))))
+// the sub-view is the SECOND operand: b - ~a
+KERNEL int K(k_compb_extract_second)(const size_t* shape, const unsigned* da, const unsigned* db, OUTS, int* same){
+  a2_t a, b; if (!mk2(a,shape,da) || !mk2(b,shape,db)) return -1;
+  auto mv = view::subtract(b, view::invert(a)); V(0, mv); if (!nm::has_value(mv)) return 0; const auto& v = nm::unwrap(mv);
+  V(1, fn::apply(fn::get_function_composition(v), fn::get_function_operands(v)));
+  const auto& ops = fn::get_function_operands(v); same[0] = (int)meta::len_v<meta::remove_cvref_t<decltype(nm::unwrap(ops))>>; return 2; }
 // extraction from a depth-2 view with a repeated leaf: (a+b)-a has three operand occurrences; only the addresses are observed
 KERNEL int K(k_extract_repeated)(const size_t* shape, const unsigned* da, const unsigned* db, int* same){
   a2_t a, b; if (!mk2(a,shape,da) || !mk2(b,shape,db)) return -1;
